@@ -231,6 +231,10 @@ class Explorer(pysym.Explorer):
         return super().branch(cond)
 
 
+class StopExploration(BaseException):
+    """raised from an on_path callback: the case is already decided (a replay-confirmed violation), stop exploring."""
+
+
 def stubs():
     """context managers rebinding float/int/round in the analysed modules."""
     from contextlib import ExitStack
@@ -327,14 +331,18 @@ class Oracle:
         end = z3.RealVal(es[0]) + length
         if self.uniform:
             return self.nearest_edge(ax, n, end)
-        tol = z3.RealVal(Fraction(1, 10**6) * min(b - a for e in self.edges for a, b in zip(e, e[1:])))
-        near = [absz(z3.RealVal(e) - end) < tol for e in es]
+        ms = min(b - a for e in self.edges for a, b in zip(e, e[1:]))
+        # "exact edge alignment" is implemented with a tolerance of 1e-6 * min spacing (a float constant); inside a sliver of
+        # +-0.1% around that tolerance either answer is accepted
+        tol_lo, tol_hi = z3.RealVal(Fraction(999, 10**9) * ms), z3.RealVal(Fraction(1001, 10**9) * ms)
+        near_hi = [absz(z3.RealVal(e) - end) <= tol_hi for e in es]
+        near_lo = [absz(z3.RealVal(e) - end) < tol_lo for e in es]
         opts = []
         for j, e in enumerate(es):
             first_beyond = z3.And(z3.RealVal(e) >= end, *[z3.RealVal(es[i]) < end for i in range(j)])
             if j == len(es) - 1:
                 first_beyond = z3.And(*[z3.RealVal(es[i]) < end for i in range(j)])  # clamped to the axis
-            opts.append(z3.And(n == j, z3.Or(near[j], z3.And(z3.Not(z3.Or(*near)), first_beyond))))
+            opts.append(z3.And(n == j, z3.Or(near_hi[j], z3.And(z3.Not(z3.Or(*near_lo)), first_beyond))))
         return z3.Or(*opts)
 
     def extent(self, ax, b0, b1):
@@ -516,8 +524,8 @@ def templates(tier):
     add("overdetermined-pos-vs-coords", [obj("A", gshape=(2, None, None)), obj("B", gshape=(2, None, None))],
         [c_pos("A", "B", (0,), (0.0,), (0.0,), margins=(R("m", -1.0, 1.0),)), c_grid("A", (0,), ("-",), (I("ga", 0, N - 2),)), c_grid("B", (0,), ("-",), (I("gb", 0, N - 2),))])
     add("overdetermined-pos-vs-coords-pinned", [obj("A", gshape=(2, None, None)), obj("B", gshape=(2, None, None))],
-        [c_pos("A", "B", (0,), (0.0,), (0.0,), margins=(R("m", -1.0, 1.0),)), c_grid("A", (0,), ("-",), (I("ga", 0, N - 2),)), c_grid("A", (0,), ("+",), (I("ga1", 0, N),)),
-         c_grid("B", (0,), ("-",), (I("gb", 0, N - 2),)), c_grid("B", (0,), ("+",), (I("gb1", 0, N),))], pinned=["A", "B"])
+        [c_pos("A", "B", (0,), (0.0,), (0.0,), margins=(R("m", -1.0, 1.0),)), c_grid("A", (0,), ("-",), (I("ga", 0, 2),)), c_grid("A", (0,), ("+",), (I("ga1", 2, 4),)),
+         c_grid("B", (0,), ("-",), (I("gb", 1, 3),)), c_grid("B", (0,), ("+",), (I("gb1", 3, 5),))], pinned=["A", "B"])
     # 14 declared grid shape next to both grid coordinates
     add("overdetermined-shape-vs-coords", [obj("A", gshape=(2, None, None))], [c_grid("A", (0,), ("-",), (I("g0", 0, N),)), c_grid("A", (0,), ("+",), (I("g1", 0, N),))])
     add("overdetermined-shape-vs-coords-pinned", [obj("A", gshape=(2, None, None))],
@@ -526,14 +534,14 @@ def templates(tier):
     add("overdetermined-size", [obj("A", gshape=(3, None, None)), obj("B", gshape=(I("n", 1, N), None, None))],
         [c_grid("A", (0,), ("-",), (0,)), c_size("B", "A", (0,), props=(R("pr", 0.0, 2.0),)), c_grid("B", (0,), ("-",), (0,))])
     add("overdetermined-size-pinned", [obj("A", gshape=(3, None, None)), obj("B", gshape=(2, None, None))],
-        [c_size("B", "A", (0,), props=(R("pr", 0.0, 2.0),)), c_grid("A", (0,), ("-",), (0,)), c_grid("A", (0,), ("+",), (3,)), c_grid("B", (0,), ("-",), (I("g", 0, N - 2),)),
-         c_grid("B", (0,), ("+",), (I("g1", 0, N),))], pinned=["A", "B"])
+        [c_size("B", "A", (0,), props=(R("pr", 0.0, 2.0),)), c_grid("A", (0,), ("-",), (0,)), c_grid("A", (0,), ("+",), (3,)), c_grid("B", (0,), ("-",), (I("g", 0, 2),)),
+         c_grid("B", (0,), ("+",), (I("g1", 2, N),))], pinned=["A", "B"])
     # 16 extension next to a position constraint and a declared shape
     add("overdetermined-ext-pos", [obj("A", gshape=(2, None, None)), obj("B", gshape=(2, None, None))],
         [c_grid("A", (0,), ("-",), (I("g", 0, N - 2),)), c_pos("B", "A", (0,), (-1.0,), (1.0,), margins=(R("m", -1.0, 1.0),)), c_ext("B", None, 0, "+")])
     add("overdetermined-ext-pinned", [obj("A", gshape=(2, None, None)), obj("B")],
-        [c_ext("B", "A", 0, "+", offset=R("off", -1.0, 1.0)), c_grid("B", (0,), ("-",), (0,)), c_grid("B", (0,), ("+",), (I("g1", 1, N),)), c_grid("A", (0,), ("-",), (I("g", 0, N - 2),)),
-         c_grid("A", (0,), ("+",), (I("ga1", 0, N),))], pinned=["A", "B"])
+        [c_ext("B", "A", 0, "+", offset=R("off", -1.0, 1.0)), c_grid("B", (0,), ("-",), (0,)), c_grid("B", (0,), ("+",), (I("g1", 1, 4),)), c_grid("A", (0,), ("-",), (I("g", 2, 4),)),
+         c_grid("A", (0,), ("+",), (I("ga1", 4, N),))], pinned=["A", "B"])
     # 17 real position next to coordinates (size only known from the coordinates)
     add("overdetermined-realpos", [obj("A", rpos=(R("x", -2.0, 2.0), None, None))], [c_grid("A", (0,), ("-",), (I("g0", 0, N),)), c_grid("A", (0,), ("+",), (I("g1", 0, N),))])
     # 18 position relative to an object that is itself only resolved by the extension step
@@ -591,6 +599,9 @@ def explore_template(c, spec, runs, on_path, max_paths=4000):
             ex.explore(fn, lambda res, exc, pc: on_path(res, pc, envz))
         except pysym.Budget as b:
             c.inconclusive.append(f"{c.name}: exploration budget: {b}")
+        except StopExploration as st:
+            pysym._CUR = None
+            c.notes.append(f"exploration stopped early: {st}")
     c.paths += ex.paths
     c.queries += ex.queries
     c.solver_s += ex.solver_s
@@ -606,6 +617,7 @@ def run_case(c, case):
     c.bounds.update(shape=spec["shape"], grid=spec.get("grid", "uniform"), symbols=sorted(symbols_of(spec)))
     stats = dict(success_paths=0, failed_paths=0)
     first_success, all_success = [], []
+    violated_keys = set()
 
     def on_path(results, pc, envz):
         (res, exc), = results
@@ -634,7 +646,14 @@ def run_case(c, case):
             return replay
 
         for kind, f in cl.items():
-            c.prove(f"{kind}#path{stats['success_paths']}", f, pc, mk_replay(kind), key=f"{kind}:{spec['name']}")
+            key = f"{kind}:{spec['name']}"
+            if key in violated_keys:  # already replay-confirmed for this template: the verdict for this key cannot change any more
+                stats["obligations_skipped_after_violation"] = stats.get("obligations_skipped_after_violation", 0) + 1
+                continue
+            nv = len(c.violations)
+            c.prove(f"{kind}#path{stats['success_paths']}", f, pc, mk_replay(kind), key=key)
+            if len(c.violations) > nv:
+                violated_keys.add(key)
 
     ex, envz, assume = explore_template(c, spec, lambda o, k: [(o, k)], on_path)
     c.extra.update(stats)
